@@ -36,7 +36,7 @@ Section Generic.
   (* correctness of the authenticated encryption, and what it binds *)
   Hypothesis open_seal : forall s t v p, open s t v (seal s t v p) = Some p.
   Hypothesis open_bind : forall s t v s' t' v' p,
-      open s t v (seal s' t' v' p) <> None -> s = s' /\ t = t' /\ v = v'.
+      open s t v (seal s' t' v' p) <> None -> s = s' /\ t = t'.
   (* sender's payloads are bytes and at most maxPlaintext long (writeRecord splits) *)
   Hypothesis S_ok : Forall (fun tp => wf_bytes (snd tp) = true /\ blen (snd tp) <= maxPlaintext) S.
 
@@ -68,7 +68,9 @@ Section Generic.
     destruct ((c_kind c =? 1) && _); [discriminate|].
     destruct (r_claim r =? r_actual r) eqn:E; [|discriminate].
     destruct (r_body r) as [b|]; [|discriminate].
-    exists b. apply Z.eqb_eq in E. auto.
+    exists b. apply Z.eqb_eq in E. destruct (open seq (r_typ r) (r_vers r) b) as [p0|]; [|discriminate].
+    destruct ((c_kind c =? 1) && negb (pad_accept (c_vers c) (sender_pad c (blen p0)))); [discriminate|].
+    inversion H; subst. auto.
   Qed.
 
   (* an accepted record is the sender's record number seq, unmodified *)
@@ -81,8 +83,8 @@ Section Generic.
     intros Hs Ha Hv H. destruct (decrypt_some _ _ _ H) as [b [Hb [Hc Ho]]].
     unfold authentic in Ha. rewrite Hb in Ha. destruct Ha as [[k [t [q [Hn [Hbq Hlen]]]]]|Hno].
     - subst b. assert (Hne : open seq (r_typ r) (r_vers r) (seal (Z.of_nat k) t (c_vers c) q) <> None) by congruence.
-      destruct (open_bind _ _ _ _ _ _ _ Hne) as [E1 [E2 E3]].
-      rewrite E1, E2, E3 in Ho. rewrite open_seal in Ho. inversion Ho; subst q.
+      destruct (open_bind _ _ _ _ _ _ _ Hne) as [E1 E2].
+      rewrite E1, E2, Hv in Ho. rewrite open_seal in Ho. inversion Ho; subst q.
       subst seq. rewrite Nat2Z.id. split; [rewrite E2; exact Hn|].
       destruct r as [rt rv rc ra rb]; simpl in *. subst. reflexivity.
     - rewrite Hno in Ho. discriminate.
@@ -224,12 +226,11 @@ End Generic.
 (* the free instance used by run_C42 satisfies the hypotheses *)
 Lemma sopen_seal s t v p : sopen s t v (Sealed s t v p) = Some p.
 Proof. unfold sopen. rewrite !Z.eqb_refl. reflexivity. Qed.
-Lemma sopen_bind s t v s' t' v' p : sopen s t v (Sealed s' t' v' p) <> None -> s = s' /\ t = t' /\ v = v'.
+Lemma sopen_bind s t v s' t' v' p : sopen s t v (Sealed s' t' v' p) <> None -> s = s' /\ t = t'.
 Proof.
   unfold sopen. destruct (s' =? s) eqn:E1; [|intro H; exfalso; apply H; reflexivity].
   destruct (t' =? t) eqn:E2; [|intro H; exfalso; apply H; reflexivity].
-  destruct (v' =? v) eqn:E3; [|intro H; exfalso; apply H; reflexivity].
-  apply Z.eqb_eq in E1, E2, E3. auto.
+  apply Z.eqb_eq in E1, E2. auto.
 Qed.
 
 (* ---- the sender: chunking keeps the bytes ---- *)
@@ -423,14 +424,14 @@ Proof. induction l as [|[t p] l IH]; intro k; simpl; [reflexivity|]. rewrite IH.
 (* ------------------------------------------------------------------------------------------ *)
 (* the executable model (free instance + tamper scripts): prefix and detection *)
 Theorem model_prefix_and_detection : forall x w trail d st n,
-  wf_C42 x = true -> tampered_wire x = (w, trail) ->
+  wf_base x = true -> tampered_wire x = (w, trail) ->
   receive sbody sopen (i_cfg x) w trail = (d, st, n) ->
   is_prefix d (sent_bytes (i_writes x)) = true /\
   0 <= n /\ firstn (Z.to_nat n) w = firstn (Z.to_nat n) (orig_wire x) /\
   (relevant x = true -> tail_dropped x = false -> st <> 1).
 Proof.
   intros x w trail d st n Hwf Hw Hr.
-  unfold wf_C42 in Hwf. apply andb_true_iff in Hwf. destruct Hwf as [Hwf _].
+  unfold wf_base in Hwf. apply andb_true_iff in Hwf. destruct Hwf as [Hwf _].
   apply andb_true_iff in Hwf. destruct Hwf as [_ Hbytes].
   pose proof (tampered_auth x) as Ha. rewrite Hw in Ha. simpl in Ha.
   destruct (receive_prefix_only sbody Sealed sopen (i_cfg x) (S_of x) sopen_seal sopen_bind
@@ -448,7 +449,7 @@ Proof.
 Qed.
 
 Theorem prop_C42_of_model_tampered : forall i x,
-  dec_C42 i = Some x -> wf_C42 x = true -> relevant x = true -> kf_C42 i = 0 ->
+  dec_C42 i = Some x -> wf_base x = true -> relevant x = true -> kf_C42 i = 0 ->
   prop_C42 i (run_C42 i) = true.
 Proof.
   intros i x Hdec Hwf Hrel Hkf. unfold run_C42, prop_C42, kf_C42 in *. rewrite Hdec in *. rewrite Hwf in *.
@@ -460,10 +461,25 @@ Proof.
 Qed.
 
 (* ---- completeness: an untouched stream is delivered completely ---- *)
-(* suite shapes that exist in cipher_suites.go: CBC block size 8 or 16, explicit IV = 0 or one block *)
-Definition cfg_ok (c : cfg) : bool :=
-  wf_cfg c && (c_mac c + c_expl c + c_ovh c <=? 2000) &&
-  (negb (c_kind c =? 1) || (((c_bs c =? 8) || (c_bs c =? 16)) && ((c_expl c =? 0) || (c_expl c =? c_bs c)))).
+Lemma pad_pattern_length n : forall i, length (pad_pattern n i) = n.
+Proof. induction n; intro i; simpl; [reflexivity|]. rewrite IHn. reflexivity. Qed.
+
+Lemma sender_pad_len c m : 0 < c_bs c -> 0 <= c_padx c ->
+  blen (sender_pad c m) =
+  (c_bs c - (m + c_mac c) mod c_bs c) + (if c_pad c =? 2 then c_bs c * c_padx c else 0).
+Proof.
+  intros Hbs Hx. unfold sender_pad, blen. pose proof (Z.mod_pos_bound (m + c_mac c) (c_bs c) Hbs) as Hm.
+  set (base := c_bs c - (m + c_mac c) mod c_bs c) in *.
+  assert (Hmul : 0 <= c_bs c * c_padx c) by (apply Z.mul_nonneg_nonneg; lia).
+  destruct (c_pad c =? 0) eqn:E0.
+  { apply Z.eqb_eq in E0. rewrite E0. simpl (0 =? 2). rewrite repeat_length, Z2Nat.id by lia. lia. }
+  destruct (c_pad c =? 1) eqn:E1.
+  { apply Z.eqb_eq in E1. rewrite E1. simpl (1 =? 2). rewrite app_length, pad_pattern_length. simpl length.
+    rewrite Nat2Z.inj_add, Z2Nat.id by lia. simpl Z.of_nat. lia. }
+  destruct (c_pad c =? 2) eqn:E2.
+  { cbv zeta. rewrite repeat_length, Z2Nat.id by lia. lia. }
+  rewrite app_length, pad_pattern_length. simpl length. rewrite Nat2Z.inj_add, Z2Nat.id by lia. simpl Z.of_nat. lia.
+Qed.
 
 Section Complete.
   Variable B : Type.
@@ -480,11 +496,12 @@ Section Complete.
                          (wire_len c m <? round_up (c_expl c + c_mac c + 1) (c_bs c))) = false).
   Proof.
     intro Hm. pose proof Hc as Hc'. unfold cfg_ok in Hc'. unfold maxPlaintext, maxCiphertext in *.
-    apply andb_true_iff in Hc'. destruct Hc' as [Hc' H]. apply andb_true_iff in Hc'. destruct Hc' as [Hwf Hsum].
+    apply andb_true_iff in Hc'. destruct Hc' as [Hc' H]. apply andb_true_iff in Hc'. destruct Hc' as [Hc' Hpx].
+    apply andb_true_iff in Hc'. destruct Hc' as [Hwf Hsum].
     unfold wf_cfg in Hwf.
     repeat (apply andb_true_iff in Hwf; let W := fresh "W" in destruct Hwf as [Hwf W]).
     repeat match goal with H : (_ <=? _) = true |- _ => apply Z.leb_le in H | H : (_ <? _) = true |- _ => apply Z.ltb_lt in H end.
-    unfold wire_len, round_up.
+    unfold wire_len.
     destruct (c_kind c =? 0) eqn:E0; [apply Z.eqb_eq in E0|apply Z.eqb_neq in E0].
     { replace (c_kind c =? 2) with false by (symmetry; apply Z.eqb_neq; lia).
       replace (c_kind c =? 1) with false by (symmetry; apply Z.eqb_neq; lia). simpl. split; [lia|auto]. }
@@ -495,12 +512,15 @@ Section Complete.
       { apply orb_true_iff in Hb. destruct Hb as [Hb|Hb]; apply Z.eqb_eq in Hb; auto. }
       assert (Hex : c_expl c = 0 \/ c_expl c = c_bs c).
       { apply orb_true_iff in He. destruct He as [He|He]; apply Z.eqb_eq in He; auto. }
+      rewrite sender_pad_len by lia. unfold round_up.
+      assert (Hextra : 0 <= (if c_pad c =? 2 then c_bs c * c_padx c else 0) <= c_bs c * 15).
+      { destruct (c_pad c =? 2); [|lia]. destruct Hbs as [Hbs|Hbs]; rewrite Hbs; lia. }
+      assert (Hmod : exists k, (if c_pad c =? 2 then c_bs c * c_padx c else 0) = c_bs c * k).
+      { destruct (c_pad c =? 2); [exists (c_padx c)|exists 0]; lia. }
+      destruct Hmod as [k Hk]. rewrite Hk in *. clear Hk.
       split; [|split; [reflexivity|]].
       + destruct Hbs as [Hbs|Hbs]; rewrite Hbs in *; destruct Hex as [Hex|Hex]; rewrite Hex in *;
-          pose proof (Z.mod_pos_bound (m + c_mac c + 1) 8 ltac:(lia));
-          pose proof (Z.mod_pos_bound (m + c_mac c + 1) 16 ltac:(lia));
-          pose proof (Z.mod_pos_bound (8 - (m + c_mac c + 1) mod 8) 8 ltac:(lia));
-          pose proof (Z.mod_pos_bound (16 - (m + c_mac c + 1) mod 16) 16 ltac:(lia)); lia.
+          Z.div_mod_to_equations; lia.
       + apply orb_false_iff. split.
         * apply negb_false_iff, Z.eqb_eq.
           destruct Hbs as [Hbs|Hbs]; rewrite Hbs in *; destruct Hex as [Hex|Hex]; rewrite Hex in *;
@@ -522,8 +542,12 @@ Section Complete.
     destruct (wire_len_facts (blen p) H2) as [Hw _]. specialize (IH (k + 1) H3). lia.
   Qed.
 
+  (* the receiving version accepts the peer's padding of an m-byte record *)
+  Definition pad_fine (p : list Z) : Prop :=
+    (c_kind c =? 1) && negb (pad_accept (c_vers c) (sender_pad c (blen p))) = false.
+
   (* one genuine record at the head of the stream passes every check of readRecord / decrypt *)
-  Lemma recv_head t p seq acc rest trail : 0 <= blen p <= maxPlaintext -> 0 <= total B rest + trail ->
+  Lemma recv_head t p seq acc rest trail : 0 <= blen p <= maxPlaintext -> pad_fine p -> 0 <= total B rest + trail ->
     recv B open c seq acc
       (mkRec t (c_vers c) (wire_len c (blen p)) (wire_len c (blen p)) (Some (seal seq t (c_vers c) p)) :: rest) trail =
     (if t =? 23 then recv B open c (seq + 1) (acc ++ p) rest trail
@@ -536,30 +560,31 @@ Section Complete.
        end
      else if t =? 22 then (acc, 200, seq + 1) else (acc, 110, seq + 1)).
   Proof.
-    intros Hp Ht. destruct (wire_len_facts (blen p) Hp) as [Hw [H2 H1]].
+    intros Hp Hpad Ht. destruct (wire_len_facts (blen p) Hp) as [Hw [H2 H1]].
     cbn [recv r_vers r_claim r_actual r_typ]. rewrite Z.eqb_refl. cbn [negb].
     replace (wire_len c (blen p) >? maxCiphertext) with false by (symmetry; rewrite Z.gtb_ltb; apply Z.ltb_ge; lia).
     replace (wire_len c (blen p) + total B rest + trail <? wire_len c (blen p)) with false by (symmetry; apply Z.ltb_ge; lia).
     unfold decrypt, body_seen. cbn [r_claim r_actual r_body r_typ r_vers]. rewrite H2, H1, Z.eqb_refl, open_seal.
+    unfold pad_fine in Hpad. rewrite Hpad.
     cbv zeta. replace (blen p >? maxPlaintext) with false by (symmetry; rewrite Z.gtb_ltb; apply Z.ltb_ge; lia).
     reflexivity.
   Qed.
 
   Lemma recv_apps : forall (ws : list (list Z)) seq acc rest trail,
-    Forall (fun p => 0 <= blen p <= maxPlaintext) ws -> 0 <= total B rest + trail ->
+    Forall (fun p => 0 <= blen p <= maxPlaintext /\ pad_fine p) ws -> 0 <= total B rest + trail ->
     recv B open c seq acc (protect_from B seal c seq (map (fun p : list Z => (typApp, p)) ws) ++ rest) trail =
     recv B open c (seq + Z.of_nat (length ws)) (acc ++ concat ws) rest trail.
   Proof.
     induction ws as [|p ws IH]; intros seq acc rest trail Hws Ht.
     - simpl. rewrite Z.add_0_r, app_nil_r. reflexivity.
-    - inversion Hws as [|? ? Hp Hws']; subst. cbn [map protect_from app].
+    - inversion Hws as [|? ? [Hp Hpf] Hws']; subst. cbn [map protect_from app].
       assert (Hrest : 0 <= total B (protect_from B seal c (seq + 1) (map (fun p0 : list Z => (typApp, p0)) ws) ++ rest) + trail).
       { rewrite total_app.
         assert (0 <= total B (protect_from B seal c (seq + 1) (map (fun p0 : list Z => (typApp, p0)) ws))).
         { apply total_protect. apply Forall_forall. intros [t q] Hin. apply in_map_iff in Hin.
           destruct Hin as [q' [E Hin]]. inversion E; subst. rewrite Forall_forall in Hws'. apply Hws'. exact Hin. }
         lia. }
-      rewrite (recv_head typApp p seq acc _ trail Hp Hrest).
+      rewrite (recv_head typApp p seq acc _ trail Hp Hpf Hrest).
       unfold typApp. cbn [Z.eqb Pos.eqb]. rewrite IH by assumption. cbn [concat length].
       rewrite app_assoc. f_equal; lia.
   Qed.
@@ -568,35 +593,44 @@ End Complete.
 Lemma concat_write_recs cf ws : concat (flat_map (write_recs cf) ws) = concat ws.
 Proof. induction ws as [|w l IH]; [reflexivity|]. simpl. rewrite concat_app, write_recs_concat, IH. reflexivity. Qed.
 
-(* the untouched stream of the executable model: everything is delivered, Read ends with io.EOF, the
-   sequence number is the number of records *)
-Theorem model_untampered : forall x, wf_C42 x = true -> cfg_ok (i_cfg x) = true ->
+(* the untouched stream of the executable model: if the receiving version accepts the peer's padding,
+   everything is delivered, Read ends with io.EOF, the sequence number is the number of records *)
+Theorem model_untampered : forall x, wf_base x = true -> cfg_ok (i_cfg x) = true -> pads_ok x = true ->
   receive sbody sopen (i_cfg x) (orig_wire x) 0 =
   (sent_bytes (i_writes x), 1, Z.of_nat (length (S_of x))).
 Proof.
-  intros x Hwf Hc. unfold wf_C42 in Hwf. apply andb_true_iff in Hwf. destruct Hwf as [Hwf _].
+  intros x Hwf Hc Hpads. unfold wf_base in Hwf. apply andb_true_iff in Hwf. destruct Hwf as [Hwf _].
   apply andb_true_iff in Hwf. destruct Hwf as [_ Hbytes].
   pose proof (plain_records_ok (i_cfg x) (i_writes x) (i_close x) Hbytes) as Hok.
+  unfold pads_ok in Hpads. rewrite forallb_forall in Hpads.
+  assert (Hpf : forall tp, In tp (plain_records (i_cfg x) (i_writes x) (i_close x)) -> pad_fine (i_cfg x) (snd tp)).
+  { intros tp Hin. specialize (Hpads tp Hin). unfold pad_fine.
+    destruct (c_kind (i_cfg x) =? 1); [|reflexivity]. cbn [negb orb andb] in *. rewrite Hpads. reflexivity. }
   unfold receive, orig_wire, protect, S_of in *. unfold plain_records in *.
   set (ws := flat_map (write_recs (i_cfg x)) (i_writes x)) in *.
   apply Forall_app in Hok. destruct Hok as [Hws _].
-  assert (Hws' : Forall (fun p => 0 <= blen p <= maxPlaintext) ws).
+  assert (Hws' : Forall (fun p => 0 <= blen p <= maxPlaintext /\ pad_fine (i_cfg x) p) ws).
   { apply Forall_forall. intros p Hin. rewrite Forall_forall in Hws.
-    specialize (Hws (typApp, p) ltac:(apply in_map_iff; exists p; auto)). simpl in Hws. unfold blen in *. lia. }
+    assert (Hin' : In (typApp, p) (map (fun p : list Z => (typApp, p)) ws)) by (apply in_map_iff; exists p; auto).
+    specialize (Hws (typApp, p) Hin'). simpl in Hws. split; [unfold blen in *; lia|].
+    apply (Hpf (typApp, p)). apply in_or_app. left. exact Hin'. }
   assert (Hcat : concat ws = sent_bytes (i_writes x)).
   { unfold ws, sent_bytes. apply concat_write_recs. }
-  assert (Hpf : forall k a b, protect_from sbody Sealed (i_cfg x) k (a ++ b) =
+  assert (Hpfr : forall k a b, protect_from sbody Sealed (i_cfg x) k (a ++ b) =
                  protect_from sbody Sealed (i_cfg x) k a ++ protect_from sbody Sealed (i_cfg x) (k + Z.of_nat (length a)) b).
   { intros k a. revert k. induction a as [|[t p] a IH]; intros k b; cbn [app protect_from length].
     - rewrite Z.add_0_r. reflexivity.
     - rewrite IH. replace (k + 1 + Z.of_nat (length a)) with (k + Z.of_nat (Datatypes.S (length a))) by lia. reflexivity. }
-  rewrite Hpf, app_length, map_length.
+  rewrite Hpfr, app_length, map_length.
   destruct (i_close x).
-  - rewrite (recv_apps sbody Sealed sopen (i_cfg x) sopen_seal Hc ws 0 [] _ 0 Hws').
+  - assert (Hal : pad_fine (i_cfg x) [1; 0]).
+    { apply (Hpf (typAlert, [1; 0])). apply in_or_app. right. left. reflexivity. }
+    rewrite (recv_apps sbody Sealed sopen (i_cfg x) sopen_seal Hc ws 0 [] _ 0 Hws').
     + cbn [protect_from]. rewrite ?map_length.
       rewrite (recv_head sbody Sealed sopen (i_cfg x) sopen_seal Hc).
       * unfold typAlert. cbn [Z.eqb Pos.eqb]. rewrite Hcat. simpl app. repeat f_equal. simpl length. lia.
       * unfold blen, maxPlaintext. simpl. lia.
+      * exact Hal.
       * simpl. lia.
     + cbn [protect_from]. rewrite ?map_length. cbn [total r_actual].
       destruct (wire_len_facts sbody Sealed sopen (i_cfg x) sopen_seal Hc (blen [1; 0])) as [Hw _]; [unfold blen, maxPlaintext; simpl; lia|]. lia.
@@ -609,7 +643,7 @@ Proof. rewrite <- (firstn_all l) at 1. apply srecs_prefix_firstn. Qed.
 
 (* prop_C42 holds of the model on inputs without tampering *)
 Theorem prop_C42_of_model_untampered : forall i x,
-  dec_C42 i = Some x -> wf_C42 x = true -> cfg_ok (i_cfg x) = true -> i_script x = [] -> i_cut x < 0 ->
+  dec_C42 i = Some x -> wf_base x = true -> cfg_ok (i_cfg x) = true -> i_script x = [] -> i_cut x < 0 ->
   prop_C42 i (run_C42 i) = true /\ kf_C42 i = 0.
 Proof.
   intros i x Hdec Hwf Hc Hs Hcut.
@@ -617,28 +651,45 @@ Proof.
   { unfold tampered_wire, apply_cut. rewrite Hs. simpl apply_script. apply Z.ltb_lt in Hcut. rewrite Hcut. reflexivity. }
   assert (Hrel : relevant x = false).
   { unfold relevant. rewrite Hw. unfold srecs_eqb. rewrite srecs_prefix_refl, Z.eqb_refl. destruct (i_close x); reflexivity. }
-  unfold run_C42, prop_C42, kf_C42, tail_dropped. rewrite Hdec, Hwf, Hw, Hrel, (model_untampered x Hwf Hc).
-  split; [|reflexivity]. cbn [andb]. rewrite Z.eqb_refl. unfold bytes_eqb. rewrite list_Z_eqb_refl.
-  replace (is_prefix (sent_bytes (i_writes x)) (sent_bytes (i_writes x))) with true; [reflexivity|].
-  symmetry. apply is_prefix_spec. exists []. rewrite app_nil_r. reflexivity.
+  unfold run_C42, prop_C42, kf_C42, tail_dropped. rewrite Hdec, Hwf, Hw, Hrel.
+  destruct (receive sbody sopen (i_cfg x) (orig_wire x) 0) as [[d st] n] eqn:Hr.
+  split; [|reflexivity]. cbn [andb].
+  destruct (model_prefix_and_detection x _ _ d st n Hwf Hw Hr) as [Hp _]. rewrite Hp.
+  destruct (pads_ok x) eqn:Hpo; [|reflexivity].
+  rewrite (model_untampered x Hwf Hc Hpo) in Hr. inversion Hr; subst.
+  rewrite Z.eqb_refl. unfold bytes_eqb. rewrite list_Z_eqb_refl. reflexivity.
+Qed.
+
+(* CENTRAL THEOREM: the property predicate holds of the model on every well-formed input outside the
+   finding class *)
+Theorem prop_C42_of_model : forall i x,
+  dec_C42 i = Some x -> wf_C42 x = true -> kf_C42 i = 0 -> prop_C42 i (run_C42 i) = true.
+Proof.
+  intros i x Hdec Hwf Hkf. unfold wf_C42 in Hwf. apply andb_true_iff in Hwf. destruct Hwf as [Hwf Hcase].
+  apply andb_true_iff in Hwf. destruct Hwf as [Hb Hc].
+  destruct (relevant x) eqn:Hrel.
+  - apply (prop_C42_of_model_tampered i x Hdec Hb Hrel Hkf).
+  - simpl in Hcase. apply andb_true_iff in Hcase. destruct Hcase as [Hs Hcut].
+    destruct (i_script x) eqn:Es; [|discriminate]. apply Z.ltb_lt in Hcut.
+    apply (prop_C42_of_model_untampered i x Hdec Hb Hc Es Hcut).
 Qed.
 
 (* ---- witnesses ---- *)
 Definition hello_world : val := VL [VB [104; 101; 108; 108; 111]; VB [119; 111; 114; 108; 100]].
 Definition ex_taildrop : val :=
-  VL [VL [VZ 47; VZ 771; VZ 1; VZ 20; VZ 16; VZ 16; VZ 0]; hello_world; VZ 1;
+  VL [VL [VZ 47; VZ 771; VZ 1; VZ 20; VZ 16; VZ 16; VZ 0; VZ 0; VZ 0]; hello_world; VZ 1;
       VL [VL [VZ 4; VZ 2]; VL [VZ 4; VZ 1]]; VZ (-1); VZ 0; VZ 64].
 Definition ex_flip_tag : val :=
-  VL [VL [VZ 49199; VZ 771; VZ 2; VZ 0; VZ 0; VZ 8; VZ 16]; hello_world; VZ 1;
+  VL [VL [VZ 49199; VZ 771; VZ 2; VZ 0; VZ 0; VZ 8; VZ 16; VZ 0; VZ 0]; hello_world; VZ 1;
       VL [VL [VZ 1; VZ 1; VZ 33; VZ 1]]; VZ (-1); VZ 0; VZ 64].
 Definition ex_replay : val :=
-  VL [VL [VZ 5; VZ 769; VZ 0; VZ 20; VZ 0; VZ 0; VZ 0]; hello_world; VZ 1;
+  VL [VL [VZ 5; VZ 769; VZ 0; VZ 20; VZ 0; VZ 0; VZ 0; VZ 0; VZ 0]; hello_world; VZ 1;
       VL [VL [VZ 3; VZ 0; VZ 1]]; VZ (-1); VZ 0; VZ 64].
 Definition ex_forged_close : val :=
-  VL [VL [VZ 47; VZ 769; VZ 1; VZ 20; VZ 16; VZ 0; VZ 0]; hello_world; VZ 0;
+  VL [VL [VZ 47; VZ 769; VZ 1; VZ 20; VZ 16; VZ 0; VZ 0; VZ 0; VZ 0]; hello_world; VZ 0;
       VL [VL [VZ 5; VZ 1; VZ 21; VZ 769; VZ 2]]; VZ (-1); VZ 0; VZ 64].
 Definition ex_clean : val :=
-  VL [VL [VZ 47; VZ 769; VZ 1; VZ 20; VZ 16; VZ 0; VZ 0]; hello_world; VZ 1; VL []; VZ (-1); VZ 0; VZ 64].
+  VL [VL [VZ 47; VZ 769; VZ 1; VZ 20; VZ 16; VZ 0; VZ 0; VZ 0; VZ 0]; hello_world; VZ 1; VL []; VZ (-1); VZ 0; VZ 64].
 
 Lemma tail_truncation_witness : exists i x,
   dec_C42 i = Some x /\ wf_C42 x = true /\ relevant x = true /\ kf_C42 i = 1 /\
